@@ -60,7 +60,7 @@ CHECKS = {
               "This decides one small mechanism of the property. The variable store, control flow, argument binding and mixins "
               "are NOT covered: the scope-stack harness did not finish under CBMC (BTreeMap behind Arc<RefCell>), see DESIGN.md.",
               "bounded model checking (Kani/CBMC) of BinaryOp::precedence against the specification table"),
-    "C07": _m("Bounded model checking with bit-precise doubles. Kani: fuzzy equality is reflexive, symmetric, transitive, never true beyond 1e-11, true within 4e-12 of a bucket centre; fuzzy <,==,> trichotomy; fuzzy_as_int total and exact; zero/sign partition; min/max/clamp total incl. NaN; the evaluator's ordering kernel (Value::cmp) agrees with == on magnitudes around the tolerance; Number::to_string and Serializer::write_float print the canonical spelling of the correctly rounded 10-place decimal in both styles. Engine F (MIR->C->CBMC): fuzzy_round on every double in [0, 2^40); Sass modulo (sign, magnitude, value).",
+    "C07": _m("Bounded model checking with bit-precise doubles. Kani: fuzzy equality is reflexive, symmetric, transitive, never true beyond 1e-11, true within 4e-12 of a bucket centre; fuzzy <,==,> trichotomy; fuzzy_as_int total and exact; zero/sign partition; min/max/clamp total incl. NaN; the evaluator's ordering kernel (Value::cmp) agrees with == on magnitudes around the tolerance; Number::to_string and Serializer::write_float print the canonical spelling of the correctly rounded 10-place decimal in both styles. Engine F (MIR->C->CBMC): fuzzy_round on every double in (-2^40, 2^40), both signs; Sass modulo (sign, magnitude, value).",
               "DESIGN.md section 4, C07",
               "Trusted: Kani/CBMC float encoding; the f64::powi table stub (re-validated natively each run); the `{:.10}` digit-string contract stub and the element-wise Vec::append stub (printing); engine F's C models and MIR->C translation (validated natively on ~24k inputs each run). Outside: the digit generation of `{:.10}`, literal parsing, sass:math (libm), doubles outside the windows.",
               'bounded model checking (Kani/CBMC, IEEE-754 bit-blasting) + MIR->C->CBMC for the fmod-based kernels'),
@@ -85,7 +85,7 @@ CHECKS = {
               "Only list index normalisation is decided. Argument bookkeeping is stubbed (BTree-backed); string and map functions "
               "are outside. Trusted: Kani/CBMC, the powi table, the positional-only ArgumentResult stubs.",
               "bounded model checking (Kani/CBMC) of builtin list functions against the documented index rule"),
-    "C15": _m('Bounded model checking: clamping constructors and opacity functions keep channels integer-valued in [0,255] and alpha in [0,1] for every f64 incl. NaN/inf; the 3-digit hex decision is exact over all 2^24 colours; hex literals of 3/4 (6/8 thorough) arbitrary digits denote the CSS channels (#abc = #aabbcc, #abcd = #aabbccdd); engine F: hue_to_rgb stays in [m1, m2] on a lattice, hence HSL/HWB channels stay in [0,255].',
+    "C15": _m('Bounded model checking: clamping constructors and opacity functions keep channels integer-valued in [0,255] and alpha in [0,1] for every f64 incl. NaN/inf; the 3-digit hex decision is exact over all 2^24 colours; hex literals of 3/4 (6/8 thorough) arbitrary digits denote the CSS channels (#abc = #aabbcc, #abcd = #aabbccdd); engine F: hue_to_rgb stays in [m1, m2] on a lattice, hence HSL/HWB channels stay in [0,255]; Kani: as_hsla on all 2^24 colours (alpha = alpha() in [0,1], hue/saturation/lightness ranges), from_hwb channels in range (hue path and whiteness/blackness path, contract stubs for rem_euclid and fuzzy_round), mix at weight 0/100 returns an operand, invert twice is the identity.',
               "DESIGN.md section 4, C15",
               "Colour-space round trips, named colours and the HSL-based function identities are outside. Trusted: Kani/CBMC's IEEE-754 encoding, engine F's models and translation.",
               'bounded model checking (Kani/CBMC, bit-precise floats) of Color constructors, hex reader/decision; MIR->C->CBMC for hue_to_rgb'),
